@@ -496,6 +496,11 @@ func (e *Env) call(n ECall) Term {
 	case "str", "string", "b", "int":
 		need(1)
 		return arg(0)
+	case "toint":
+		// the value of a float-to-integer conversion int(x) in the code
+		need(1)
+		e.c.declare("(declare-fun numconv (Int) Int)")
+		return mk(SInt, "(numconv %s)", arg(0).S)
 	case "ite":
 		need(3)
 		a, b := unifyNil(arg(1), arg(2))
